@@ -12,6 +12,7 @@ func init() {
 // library would be a visible write into the caller's array).
 func vfC08Config(w *vfWorld, opts string) *Config {
 	conf := w.config("keys", opts)
+	delete(conf.OperatorMap, "z") // two operators are enough here; every extra map entry multiplies the iteration orders
 	conf.ConstantMap["EXTRA"] = vfInt64("const.EXTRA")
 	conf.CostsMap["variable"] = vfCost("cost.variable")
 	if len(w.order) > 0 {
